@@ -75,6 +75,28 @@ def run_tree(case):
     out['fetched'] = fetched
     out['logs'] = logs
     out['events'] = events
+    # the SAME options object once more (fresh globals): a run - also one that failed inside an included file - leaves the includer's
+    # path resolution as it was, so the second run fetches, logs and ends exactly like the first
+    first = (list(fetched), list(logs), json.dumps(out['exc'], sort_keys=True))
+    del fetched[:], logs[:]
+    n_events = len(events)
+    options['globals'] = {}
+    exc2 = None
+    try:
+        execute_script(parse_script(case['root']), options)
+    except BareScriptParserError as exc:
+        exc2 = {'type': 'BareScriptParserError', 'msg': str(exc), 'error': exc.error, 'line': exc.line,
+                'column_number': exc.column_number, 'line_number': exc.line_number}
+    except BareScriptRuntimeError as exc:
+        exc2 = {'type': 'BareScriptRuntimeError', 'msg': str(exc)}
+    except Exception as exc:  # pylint: disable=broad-except
+        exc2 = {'type': type(exc).__name__, 'msg': str(exc)[:300]}
+    second = (list(fetched), list(logs), json.dumps(exc2, sort_keys=True))
+    if second != first:
+        out['again_differs'] = {'first': {'fetched': first[0], 'logs': first[1][:20], 'exc': first[2]},
+                                'second': {'fetched': second[0], 'logs': second[1][:20], 'exc': second[2]}}
+    del events[n_events:]
+    out['fetched'], out['logs'] = first[0], first[1]
     out['globals'] = {k: (jsonable(globals_[k]) if k in globals_ else '<absent>') for k in case.get('track', [])}
     # what parse_script says about each broken text on its own (the include must report the same error, plus the location)
     direct = {}
